@@ -103,6 +103,8 @@ type FnGen struct {
 	curInstr     ssa.Instruction
 	xexits       []xexit // exceptional exits (call may panic)
 	xtagBlock    map[int]int
+	nocall       map[string]bool
+	callTag      map[string]int // tag (block) in which the k-th call of a callee was generated
 	inDeferX     bool
 	captured     map[string]types.Type
 	callCaptured map[string]types.Type
@@ -1088,7 +1090,9 @@ func (g *FnGen) instr(in ssa.Instruction, st *State, reach string, b *ssa.BasicB
 				w.heapSort["typ"] = "(Array Int Int)"
 				g.hset(st, "typ", Term{fmt.Sprintf("(store %s %s %d)", g.hget(st, "typ").S, ref.S, w.structID(elem)), "(Array Int Int)"})
 			}
-			// ghost fields keep arbitrary values
+			// ghost fields of scalar sort start at the zero of their sort ("" / 0 / false: an unlocked mutex, an empty
+			// builder); ghost fields of other sorts keep arbitrary values
+			g.zeroGhosts(st, elem, ref, 0)
 		} else if at, ok := types.Unalias(elem).Underlying().(*types.Array); ok {
 			// backing array of a slice literal / variadic pack: a fresh slice-heap object
 			key, es := w.sliceKey(at.Elem())
@@ -1604,6 +1608,47 @@ func (g *FnGen) next(in *ssa.Next, st *State, reach string) {
 }
 
 // ---------------------------------------------------------------- returns / panics
+
+func (g *FnGen) zeroGhosts(st *State, elem types.Type, ref Term, depth int) {
+	w := g.w
+	tn := namedName(elem)
+	for name, gf := range w.ghosts {
+		if !strings.HasPrefix(name, tn+".") || name[len(tn)+1:] != gf.Field {
+			continue
+		}
+		if strings.HasPrefix(gf.Sort, "`") {
+			continue
+		}
+		ft, err := w.resolveType(gf.Pkg, gf.Sort)
+		if err != nil {
+			continue
+		}
+		srt := w.sortOf(ft)
+		if srt != "Int" && srt != "String" && srt != "Bool" {
+			continue
+		}
+		key := "F:" + tn + "." + gf.Field
+		w.heapSort[key] = fmt.Sprintf("(Array Int %s)", srt)
+		g.hset(st, key, Term{fmt.Sprintf("(store %s %s %s)", g.hget(st, key).S, ref.S, w.zero(ft).S), w.heapSort[key]})
+	}
+	stt, ok := types.Unalias(elem).Underlying().(*types.Struct)
+	if !ok || depth > 2 {
+		return
+	}
+	for i := 0; i < stt.NumFields(); i++ {
+		ft := stt.Field(i).Type()
+		if _, isStruct := types.Unalias(ft).Underlying().(*types.Struct); !isStruct {
+			continue
+		}
+		if _, isNamed := types.Unalias(ft).(*types.Named); !isNamed {
+			continue
+		}
+		key, _ := w.fieldKey(elem, i)
+		n := q("sub:" + key)
+		w.decl("sub:"+key, fmt.Sprintf("(declare-fun %s (Int) Int)\n(assert (forall ((x Int)) (! (=> (> x 0) (> (%s x) 0)) :pattern ((%s x)))))", n, n, n))
+		g.zeroGhosts(st, ft, Term{fmt.Sprintf("(%s %s)", n, ref.S), "Int"}, depth+1)
+	}
+}
 
 func (g *FnGen) resultNames() []string {
 	var out []string
